@@ -7,6 +7,7 @@ import (
 	"errors"
 	"fmt"
 	"log"
+	"os"
 	"strings"
 	"sync"
 	"testing"
@@ -54,6 +55,9 @@ type C18Sc struct {
 	ByteWriter bool   `json:"byte_writer,omitempty"`
 	// Second: after the program has ended (halted at FF03) the host loads these items as a second
 	// program at 0100h on the SAME machine and CPU value, sets PC/SP and drives it with Step.
+	// FileConsole: the configured writer is a real *os.File (like the default os.Stdout), read back
+	// through the file system when the console is inspected
+	FileConsole bool `json:"file_console,omitempty"`
 	Second []C18Item `json:"second,omitempty"`
 	// Concurrent: several independent machines (each its own Memory, IO, CPU, console) run at the same
 	// time on their own goroutines (side-car: free threads; also in the -race binary).
@@ -215,6 +219,9 @@ func c18GenOne(r *world.Rng, tier string, n int) *C18Sc {
 		sc.PreWriter = []string{"buffer", "plain"}[r.Intn(2)]
 	}
 	sc.ByteWriter = r.Chance(1, 4)
+	if len(sc.WriteFail) == 0 && !sc.ByteWriter && r.Chance(1, 12) {
+		sc.FileConsole = true
+	}
 	if len(sc.Events) == 0 && r.Chance(1, 4) {
 		// the stack has exactly the one slot the CALL needs, right behind code or a string
 		prog, _, _, _, strs := c18Assemble(sc)
@@ -414,10 +421,46 @@ func c18Run(sc *C18Sc, env *Env, bubble bool) (res *Violation) {
 	case "plain":
 		io.SetStdout(&prePlain)
 	}
-	if sc.ByteWriter {
+	var confile *os.File
+	if sc.FileConsole {
+		f, err := os.CreateTemp(".", "console-*.bin")
+		if err != nil {
+			return viol("harness", "cannot create the console file: %v", err)
+		}
+		confile = f
+		defer func() {
+			f.Close()
+			os.Remove(f.Name())
+		}()
+		io.SetStdout(f)
+	} else if sc.ByteWriter {
 		io.SetStdout(&byteFaultWriter{fw})
 	} else {
 		io.SetStdout(fw)
+	}
+	// console(): what has reached the configured writer so far
+	console := func() []byte {
+		if confile != nil {
+			b, _ := os.ReadFile(confile.Name())
+			return b
+		}
+		return fw.accepted
+	}
+	// expected console length when each BDOS call has returned
+	var cum []int
+	{
+		n := 0
+		for _, it := range sc.Items {
+			switch it.Kind {
+			case "putc", "outc":
+				n++
+			case "puts", "otir":
+				n += len(it.Str) / 2
+			}
+			if it.Kind == "putc" || it.Kind == "puts" {
+				cum = append(cum, n)
+			}
+		}
 	}
 	io.SetWarnLogger(log.New(&warnBuf, "", 0))
 
@@ -489,6 +532,13 @@ func c18Run(sc *C18Sc, env *Env, bubble bool) (res *Violation) {
 			default:
 				return viol("returns-to-caller", "BDOS call #%d returned to %04x, the caller continues at %04x", nRet, cpu.PC, rets[min(nRet, len(rets)-1)])
 			}
+			// "console output reaches the configured writer ... in program order": when the call has returned,
+			// what it printed is there (checked when no write fault was injected)
+			if len(sc.WriteFail) == 0 && nRet < len(cum) {
+				if got := console(); !bytes.Equal(got, expect[:cum[nRet]]) {
+					return viol("console-stream", "BDOS call #%d has returned: the configured writer holds %d bytes %s, the program has asked for %d bytes %s so far", nRet, len(got), clip(got), cum[nRet], clip(expect[:cum[nRet]]))
+				}
+			}
 			// returned to the caller: SP and the caller's code intact
 			if cpu.SP != sc.SP {
 				return viol("returns-to-caller", "after BDOS call #%d SP=%04x, was %04x before the call", nRet, cpu.SP, sc.SP)
@@ -507,7 +557,24 @@ func c18Run(sc *C18Sc, env *Env, bubble bool) (res *Violation) {
 	if len(sc.Second) > 0 && finalErr == nil && cpu.PC == 0xff03 {
 		// same machine, same CPU value (HALT field still set - the host does not touch it), Step-driven
 		s2 := &C18Sc{Items: sc.Second}
-		prog2, _, expect2, warns2, strs2 := c18Assemble(s2)
+		prog2, rets2, expect2, warns2, strs2 := c18Assemble(s2)
+		var cum2 []int
+		{
+			n := 0
+			for _, it := range s2.Items {
+				switch it.Kind {
+				case "putc", "outc":
+					n++
+				case "puts", "otir":
+					n += len(it.Str) / 2
+				}
+				if it.Kind == "putc" || it.Kind == "puts" {
+					cum2 = append(cum2, n)
+				}
+			}
+		}
+		first := len(expect)
+		next := 0
 		for i, b := range prog2 {
 			mem.Set(tinycpm.Start+uint16(i), b)
 		}
@@ -521,6 +588,16 @@ func c18Run(sc *C18Sc, env *Env, bubble bool) (res *Violation) {
 		parked := 0
 		for i := 0; i < 3_000_000 && parked < 2; i++ {
 			cpu.Step()
+			if next < len(rets2) && cpu.PC == rets2[next] {
+				// Step-driven host looking at the console right after a call has returned (no HALT, no Run in between)
+				if len(sc.WriteFail) == 0 && next < len(cum2) {
+					want := append(append([]byte{}, expect[:first]...), expect2[:cum2[next]]...)
+					if got := console(); !bytes.Equal(got, want) {
+						return viol("console-stream", "second program, Step-driven: BDOS call #%d has returned, the configured writer holds %d bytes, the programs have asked for %d so far (missing tail: %s)", next, len(got), len(want), clip(want[min(len(got), len(want)):]))
+					}
+				}
+				next++
+			}
 			if cpu.PC == 0xff03 {
 				parked++
 			} else {
@@ -562,8 +639,8 @@ func c18Run(sc *C18Sc, env *Env, bubble bool) (res *Violation) {
 	}
 	// console stream
 	if len(sc.WriteFail) == 0 || fw.calls <= minInt(sc.WriteFail) {
-		if !bytes.Equal(fw.accepted, expect) {
-			return viol("console-stream", "console received %d bytes %s, program asked for %d bytes %s", len(fw.accepted), clip(fw.accepted), len(expect), clip(expect))
+		if got := console(); !bytes.Equal(got, expect) {
+			return viol("console-stream", "console received %d bytes %s, program asked for %d bytes %s", len(got), clip(got), len(expect), clip(expect))
 		}
 	} else {
 		// narrow relaxation under writer faults: nothing duplicated, reordered or invented;
